@@ -115,6 +115,24 @@ pub fn run(ctx: &Ctx) {
         if !r.ok() { ctx.violation(format!("{P}:new:{shape}:refused"), r.describe(), replay); return; }
         check_phrase(ctx, &shape, &r.out(), len, &reqs, replay);
     });
+    // where the phrase is printed: a regular file and a pseudo-terminal instead of the pipe. On a terminal the layout is the
+    // program's business (rows, columns); the words, their number and their order are not
+    let outs = [StdoutTo::File, StdoutTo::Terminal];
+    ctx.sweep("output-to-file-and-terminal", "`new -n L` for the five supported lengths with standard output going to a regular file and to a pseudo-terminal: exactly the L words of the entropy the source returned, in order (any white-space layout on the terminal)", (lens5.len() * outs.len()) as u64, |i| {
+        let len = lens5[i as usize / outs.len()]; let to = outs[i as usize % outs.len()]; let e = len * 4 / 3; let pattern = filler_bytes(ctx.seed, 0xC12C + i, 64);
+        let cmd = Cmd::new(&["new", "-n", &len.to_string()]).stdout_to(to);
+        let (r, reqs, full) = run_shimmed(&cmd, Build::Release, &Mode::Cycle { pattern: pattern.clone(), fail_at: None, once: false }, "output-to-file-and-terminal", i);
+        let shape = format!("new,len={len},stdout={to:?}"); let replay = full.replay("output-to-file-and-terminal", i, Build::Release);
+        ctx.sample("output-to-file-and-terminal", || serde_json::json!({"command": trunc(&full.shown(), 200), "stdout_to": format!("{to:?}")}));
+        if r.crashed() { ctx.eval(format!("{shape}:{}", r.crash_kind())); ctx.panic_violation(format!("{P}:new:{shape}:{}", r.crash_kind()), r.describe(), replay); return; }
+        ctx.eval(format!("{shape}:{}", if r.ok() { "phrase" } else { "refused" }));
+        let out = r.out(); let toks: Vec<&str> = out.split_whitespace().collect();
+        // the entropy handed out, however it was requested
+        let handed: Vec<u8> = reqs.iter().filter(|q| q.ok).flat_map(|q| q.bytes.clone()).collect();
+        let want = if handed.len() >= e { bip39::entropy_to_phrase(&handed[..e]) } else { String::new() };
+        let exact = to == StdoutTo::File;
+        if !r.ok() || toks.join(" ") != want || (exact && out != format!("{want}\n")) { ctx.violation(format!("{P}:new:{shape}:wrong-phrase"), format!("printed {:?}; the phrase of the entropy the source returned is {:?}", trunc(&out, 200), trunc(&want, 200)), replay) }
+    });
     kth_candidate(ctx, P);
 }
 
@@ -144,5 +162,21 @@ pub fn kth_candidate(ctx: &Ctx, p: &str) {
         ctx.eval(format!("{shape},k={k}:{}", if natural { "the k-th candidate" } else { "another candidate" }));
         if check_phrase_p(ctx, pid, &shape, &r.out(), *len, &reqs, replay.clone()) { // and it really has the prefix
             if eth::address_of_secret(&curve, &key_of(&curve, &r.line(), "", &default_path(0)))[0] >> 4 != *d { ctx.violation(format!("{pid}:new:{shape}:prefix-not-matched"), format!("k = {k}: the printed phrase's account does not start with {d:x}"), replay); } }
+    });
+}
+
+/// C17: the same searches, judged only for panics, aborts and hangs
+pub fn kth_candidate_crash_only(ctx: &Ctx, p: &str) {
+    let curve = Curve::new(); let lens5 = [12usize, 15, 18, 21, 24]; let kmax = if ctx.quick() { 16usize } else { 40 }; let _ = &curve;
+    // streams are not chosen with the reference here (no oracle on the phrase): a two-digit prefix keeps every search going well beyond
+    // kmax candidates, for -j 0 and -j 2
+    let cases: Vec<(usize, &str)> = lens5.iter().flat_map(|l| ["0", "2"].iter().map(move |j| (*l, *j))).collect();
+    ctx.sweep("vanity-long-search", &format!("vanity search for a two-digit prefix (about 256 candidates, far beyond {kmax}) x every supported length x -j {{0, 2}} under a scripted stream: terminates without panic, abort or hang"), cases.len() as u64, |i| {
+        let (len, j) = cases[i as usize];
+        let cmd = Cmd::new(&["new", "-n", &len.to_string(), "--vanity-prefix", "0xa7", "-j", j]).timeout(300);
+        let (r, _reqs, full) = run_shimmed(&cmd, Build::Release, &Mode::Stream { seed: 9100 + i, fail_at: None }, "vanity-long-search", i);
+        ctx.sample("vanity-long-search", || serde_json::json!({"command": trunc(&full.shown(), 200)}));
+        ctx.eval(format!("vanity-long-search,len={len},j={j}:{}", if r.crashed() { r.crash_kind() } else if r.ok() { "phrase".into() } else { "refused".into() }));
+        if r.crashed() { ctx.panic_violation(format!("{p}:cli:vanity-long-search,len={len},j={j}:{}", r.crash_kind()), r.describe(), full.replay("vanity-long-search", i, Build::Release)); }
     });
 }
